@@ -182,7 +182,7 @@ def render_case(LKmod, RTmod, f):
 
 
 def h_scopes(p):
-    f = dict(name=["v", "format"][p.choose(2, "name")], site=SITES[p.choose(len(SITES), "site")], strict=bool(p.choose(2, "strict")))
+    f = dict(name=["v", "format", "print"][p.choose(3, "name")], site=SITES[p.choose(len(SITES), "site")], strict=bool(p.choose(2, "strict")))
     for k in ("in_context", "module_level", "imported", "body_assign", "def_arg", "page_arg", "outer_local"):
         f[k] = bool(p.choose(2, k))
     if f["def_arg"] and f["site"] not in ("def", "nested-def"):
@@ -406,6 +406,10 @@ sys.exit(1 if bad else 0)
 
 def classify(c):
     i = c.get("input") or {}
+    if c["kind"] == "name-resolution" and (i.get("flags") or {}).get("name") == "print":
+        # every way a value of that name reaches a def or the body through the context (render argument, page argument, body
+        # assignment seen by a def) is the same defect
+        return "C04-print-not-resolved-from-context"
     if c["kind"] == "reserved-name" and i.get("name") != "ordinary":
         if i.get("where") == "module-level-assignment":
             return "C04-reserved-name-module-level-assignment"
